@@ -1,5 +1,6 @@
 CONSTANTS
   Cases <- MCNoCases
+  RCases <- MCNoCases
   Around <- AroundBoth
 INIT TrInit
 NEXT TrNext
@@ -10,6 +11,7 @@ INVARIANT LenFieldOK
 INVARIANT ConsumedOK
 INVARIANT Lossless
 INVARIANT Stable
+INVARIANT Idempotent
 INVARIANT Fresh
 INVARIANT Mult8
 CHECK_DEADLOCK FALSE
